@@ -23,8 +23,8 @@ import types
 
 from harness.core import enc_cps, dec_cps
 
-LEAN_PROPS = ["CircusProofs/Props/C13.lean"]
-LEAN_LEMMAS = ["CircusProofs/Lemmas/Argv.lean"]
+LEAN_PROPS = ["CircusProofs/Props/C13.lean", "CircusProofs/Props/C13Core.lean"]
+LEAN_LEMMAS = ["CircusProofs/Lemmas/Argv.lean", "CircusProofs/Core/WidInv.lean"]
 RULE = ("cases = six kinds (gnu, split, quote, fmt, spawn, hist). cmd/args/shell_args are concatenations of "
         "segments: literals over an alphabet with spaces, tabs, both quote kinds, backslashes, '$', '(' and ')'; "
         "references in both syntaxes $(circus.X) / ((circus.X)) with random letter case to wid, env.<key>, "
